@@ -147,6 +147,17 @@ func fanDisc(rng *rand.Rand, n int) *model3d.Mesh {
 	return m
 }
 
+// symFan: one interior vertex above the centre of the square rim (1,0) (0,1) (-1,0) (0,-1)
+func symFan() *model3d.Mesh {
+	m := model3d.NewMesh()
+	c := model3d.XYZ(0, 0, 1)
+	rim := []model3d.Coord3D{model3d.XYZ(1, 0, 0), model3d.XYZ(0, 1, 0), model3d.XYZ(-1, 0, 0), model3d.XYZ(0, -1, 0)}
+	for i := range rim {
+		m.Add(&model3d.Triangle{c, rim[i], rim[(i+1)%4]})
+	}
+	return m
+}
+
 func floaterRun(id int, name string, disc *model3d.Mesh, weighting string, bnd string) floaterRec {
 	rec := floaterRec{ID: id, Kind: "floater", Site: "Floater97:" + weighting + ":" + bnd, Mesh: name, Mean: true, NoFlip: true, Boundary: true}
 	outcome, pan := withDeadline(60*time.Second, func() {
@@ -156,6 +167,15 @@ func floaterRun(id int, name string, disc *model3d.Mesh, weighting string, bnd s
 			boundary = model3d.CircleBoundary(disc)
 		case "square":
 			boundary = model3d.SquareBoundary(disc)
+		case "diamond":
+			// the rim of symFan mapped onto itself: a convex boundary whose coordinates cancel exactly,
+			// so both right-hand sides of the linear system are exactly zero
+			boundary = model3d.NewCoordMap[model2d.Coord]()
+			for _, v := range disc.VertexSlice() {
+				if v.Z == 0 {
+					boundary.Store(v, v.XY())
+				}
+			}
 		default:
 			boundary = model3d.PNormBoundary(disc, 4)
 		}
@@ -450,6 +470,12 @@ func init() {
 						id++
 						out.write(floaterRun(id, discNames[i], d, w, b))
 					}
+				}
+			}
+			for _, w := range []string{"uniform", "chord", "shape"} {
+				for _, b := range []string{"diamond", "circle"} {
+					id++
+					out.write(floaterRun(id, "symfan", symFan(), w, b))
 				}
 			}
 			for _, name := range []string{"box", "voxL", "ico", "torus", "two"} {
